@@ -73,8 +73,9 @@ class BaseWindow(ContextManager):
         traceback: Optional[TracebackType] = None,
     ) -> None:
         logger.debug("running BaseWindow.__exit__")
-        if self.hide_cursor:
-            self.write(self.t.normal_cursor)
+        # with hide_cursor=False rendering still hides the cursor while it draws, and an
+        # exception in the middle of a render would leave it hidden: always restore it
+        self.write(self.t.normal_cursor)
 
     def on_terminal_size_change(self, height: int, width: int) -> None:
         # Changing the terminal size breaks the cache, because it
